@@ -24,7 +24,7 @@ Notation Inv := (Inv g c d0).
 Lemma inv_fault st n d' t' :
   Inv st -> ph st n <> Idle -> ph st n <> Done ->
   (d' = dst st \/ (d' = n :: dst st /\ settled_ph (ph st n) = true /\ has g (dst st) n = false)) ->
-  (t' = tag st \/ (t' = Some n /\ root_refpush c n = true)) ->
+  (t' = tag st \/ (t' = Some n /\ n = c_root c)) ->
   Inv (mkState (upd (ph st) n Dead) d' (cached st) t' (returned st)).
 Proof.
   intros I Hni Hnd Hd Ht.
@@ -86,7 +86,7 @@ Proof.
     + rewrite upd_other in Hm by assumption. now apply (i_mt _ _ _ st I).
   - (* tagroot *)
     destruct Ht as [->|[-> Hr]]; [now apply (i_tagroot _ _ _ st I)|].
-    right. f_equal. now apply root_refpush_root in Hr.
+    right. f_equal. exact Hr.
   - (* mtfb *)
     intros m Hm. destruct (Nat.eq_dec m n) as [->|E].
     + rewrite upd_same in Hm. discriminate.
@@ -136,6 +136,11 @@ Inductive fstep_shape (fs : fstate) : fevent -> fstate -> Prop :=
                     (if ref && stored then Some n else tag (fb fs))
                     None)
            (f_cancelled fs) false true (if rd then n :: f_rd fs else f_rd fs))
+| fs_tagx n set sk :
+    f_aborted fs = false -> ph (fb fs) n = TagP1 sk ->
+    fstep_shape fs (TagX n set)
+      (with_base fs (mkState (upd (ph (fb fs)) n Dead) (dst (fb fs)) (cached (fb fs))
+                             (if set then Some n else tag (fb fs)) None))
 | fs_prook :
     f_aborted fs = false -> f_started fs = false -> fstep_shape fs ProOk fs
 | fs_prox :
@@ -147,7 +152,7 @@ Lemma fstep_inv fs fe fs' : fstep g c ext fs fe = Some fs' ->
 Proof.
   unfold fstep. intro H.
   destruct (returned (fb fs)) eqn:Hr; [discriminate|]. split; [reflexivity|].
-  destruct fe as [e|n|n|n ref stored| | |].
+  destruct fe as [e|n|n|n ref stored|n set| | |].
   - destruct e;
       try (destruct (f_aborted fs) eqn:Hab; [discriminate|];
            cbv iota beta in H;
@@ -181,6 +186,9 @@ Proof.
     injection H as <-. eapply fs_pux; eauto.
     apply negb_false_iff in Hre. now apply Bool.eqb_prop in Hre.
   - destruct (f_aborted fs) eqn:Hab; [discriminate|].
+    destruct (ph (fb fs) n) eqn:Hp; try discriminate.
+    injection H as <-. eapply fs_tagx; eauto.
+  - destruct (f_aborted fs) eqn:Hab; [discriminate|].
     destruct (f_started fs) eqn:Hst; [discriminate|].
     injection H as <-. now apply fs_prook.
   - destruct (f_aborted fs) eqn:Hab; [discriminate|].
@@ -210,7 +218,14 @@ Proof.
         by (apply (i_present _ _ _ _ I); rewrite H1; reflexivity).
       congruence.
     + destruct (ref && stored) eqn:E; [|now left].
-      right. apply andb_true_iff in E as [E _]. split; [reflexivity|]. congruence.
+      right. apply andb_true_iff in E as [E _]. split; [reflexivity|].
+      assert (Hrr : root_refpush c n = true) by congruence.
+      now apply root_refpush_root in Hrr.
+  - (* TagX *)
+    rewrite <- Hr. apply inv_fault; auto; try congruence.
+    destruct set; [|now left]. right. split; [reflexivity|].
+    assert (Ht : root_tagger c n = true) by (apply (i_tagging _ _ _ _ I); rewrite H0; reflexivity).
+    now apply root_tagger_root in Ht.
 Qed.
 
 Lemma frun_inv tr : forall fs fs', Inv (fb fs) -> frun g c ext fs tr = Some fs' -> Inv (fb fs').
@@ -360,6 +375,8 @@ Proof.
     intros x Hxd. eapply dead_absorbing; eauto.
   - right. right. eapply any_dead_mono; [|exact Ht].
     intros x Hxd. cbn [ph]. now apply upd_dead_keeps.
+  - right. right. eapply any_dead_mono; [|exact Ht].
+    intros x Hxd. cbn [ph]. now apply upd_dead_keeps.
 Qed.
 
 Lemma cbfail_dead st k n st' : step g c st (CbFail k n) = Some st' ->
@@ -386,6 +403,9 @@ Proof.
     apply (i_bound _ _ _ _ I). congruence.
   - rewrite (any_dead_intro (set_ph (fb fs) n Dead) n); [apply orb_true_r | | cbn [set_ph ph]; apply upd_same].
     apply (i_bound _ _ _ _ I). destruct H0 as [H0|[sk H0]]; congruence.
+  - match goal with |- context [any_dead g ?s] =>
+      rewrite (any_dead_intro s n); [apply orb_true_r | | cbn [ph]; apply upd_same] end.
+    apply (i_bound _ _ _ _ I). congruence.
   - match goal with |- context [any_dead g ?s] =>
       rewrite (any_dead_intro s n); [apply orb_true_r | | cbn [ph]; apply upd_same] end.
     apply (i_bound _ _ _ _ I). congruence.
